@@ -93,7 +93,7 @@ structure St where
   now : Int := 0
   dists : List DistIn := []
   sfx : List (Nat × Xfer) := []                    -- outcome of the swap-fee transfer per swap-fee gauge reached in this block
-  leaked : List (String × Int) := []               -- per denomination: coins paid by swap-fee triggers that were not booked (D37), cumulative
+  leaked : List (String × Int) := []               -- per denomination: coins paid by swap-fee triggers that were not booked (D44), cumulative
   leakNow : List (String × Int) := []              -- … in the current block
   shareIns : List ShareIn := []
   lendIns : List LendIn := []
@@ -489,7 +489,7 @@ def custodyMons (tag : String) (st : St) : List String :=
     let gs := (st.gs.filter (·.denom = d)).map (fun r => if r.sf then { r.g with distributed := 0 } else r.g)
     let xs := (extsOf st d).map (·.x)
     let nonSf := (gaugesOf st d).map (·.g)
-    -- coins that swap-fee triggers paid without booking them (finding D37, `sf_gauge_leak_counterexample`) are accounted
+    -- coins that swap-fee triggers paid without booking them (finding D44, `sf_gauge_leak_counterexample`) are accounted
     -- for under their own monitor name, so that `custody` stays sharp for every other cause
     let lk := lookupBal st.leaked d
     let ok := decide (remGauges gs + remExts xs ≤ lookupBal st.bals d + lk) && nonSf.all gaugeOk
